@@ -390,14 +390,15 @@ def desugar_loop_break_values(body, drops, fn_disp):
                 raise SpecError("rule 7: plain `break` inside a value loop")
             has_semi = e < len(inner_m) and inner_m[e] == ";"
             out.append(inner[pos:bm.start()])
-            out.append("{ %s = %s; break; }" % (var, val))
+            out.append("{ %s_loopval_ = %s; break; }" % (var, val))
             pos = e + 1 if has_semi else e
             n += 1
         out.append(inner[pos:])
         if n == 0:
             raise SpecError("rule 7: value loop without break")
         # trailing `;` after the loop's closing brace stays
-        body = body[:m.start()] + "let %s; loop {" % var + "".join(out) + "}" + body[c + 1:]
+        # a fresh name for the deferred slot: BODY may declare a local with the same name as X
+        body = body[:m.start()] + "let %s_loopval_; loop {" % var + "".join(out) + "} let %s = %s_loopval_" % (var, var) + body[c + 1:]
         drops.append("%s: `let %s = loop {..break V;..}` desugared to deferred initialisation + plain break (rule 7, %d exits)" % (fn_disp, var, n))
 
 
